@@ -398,6 +398,9 @@ func treeMode(K int, seed int64, batches int, out *json.Encoder) error {
 			}
 		}
 		usePar := par || (K >= 5 && rng.Intn(2) == 0)
+		if os.Getenv("SMTX_NOPAR") != "" {
+			usePar = false
+		}
 		line := TreeLine{Kind: "batch", K: K, Ops: kvList(ops), Par: usePar && len(vops) >= 16, Real: &JTree{T: "L", K: []int{}}, Ref: &JTree{T: "L", K: []int{}}}
 		if e := smt.VerifCommit(vops, usePar); e != nil {
 			line.Err = e.Error()
@@ -606,7 +609,7 @@ func storeKeys(rng *rand.Rand, n int) [][]byte {
 		h := sha256.Sum256(k)
 		// keep keys whose hash starts with one of a few byte patterns (forces shared prefixes and border adjacency)
 		b := h[0]
-		if b == 0x1f || b == 0x20 || b == 0x3f || b == 0x40 || b == 0xdf || b == 0xe0 || b&0xF0 == 0x50 || rng.Intn(40) == 0 {
+		if b == 0x1f || b == 0x20 || b == 0x3f || b == 0x40 || b == 0xdf || b == 0xe0 || b&0xF0 == 0x50 || b == 0x7f || b == 0x7e || b == 0x60 || b == 0x80 || rng.Intn(40) == 0 {
 			if !seen[string(k)] {
 				seen[string(k)] = true
 				out = append(out, k)
@@ -679,6 +682,11 @@ func storeMode(seed int64, histories int, out *json.Encoder) error {
 					st.Reset()
 					noise := keys[rng.Intn(len(keys))]
 					_, present := state[string(noise)]
+					for _, o := range ops { // the noise key must not be one the block itself writes
+						if bytes.Equal(o.k, noise) {
+							present = true
+						}
+					}
 					if !present {
 						_ = st.Set(noise, []byte("noise"))
 					}
